@@ -78,4 +78,75 @@ theorem C07_efdd_mpe_wiring :
       [("self.result.Fn", "fdd.EFDD_mpe[0]#0.reshape(-1)"), ("self.result.Xi", "fdd.EFDD_mpe[0]#1.reshape(-1)"), ("self.result.Phi", "fdd.EFDD_mpe[0]#2")] = true := by
   decide
 
+/-- **C16 hand-over, EFDD / FSDD / EFDD_MS.** `EFDD.mpe_from_plot` hands the frequencies picked in the dialog
+    (first component of the dialog's result) to `fdd.EFDD_mpe` as the request, with the stored spectrum and the
+    fit parameters of THIS call; FDD's hand-over reads the stored singular values/vectors and grid; the pLSCF
+    hand-over reads the three stored pole tables; nothing else is passed. -/
+theorem C16_handover_wiring_efdd :
+    args "EFDD" "mpe_from_plot" "fdd.EFDD_mpe"
+      [("sel_freq", "<SelFromPlot(algo=self, freqlim=freqlim, plot='FDD')>.result[0]"),
+       ("Sy", "self.result.Sy"), ("freq", "self.result.freq"), ("dt", "self.dt"),
+       ("methodSy", "self.run_params.method_SD"), ("method", "self.method"),
+       ("DF1", "DF1"), ("DF2", "DF2"), ("cm", "cm"), ("MAClim", "MAClim"), ("sppk", "sppk"), ("npmax", "npmax")] = true
+    ∧ onlyParams "EFDD" "mpe_from_plot" "fdd.EFDD_mpe"
+      ["Sy", "freq", "dt", "sel_freq", "methodSy", "method", "DF1", "DF2", "cm", "MAClim", "sppk", "npmax"] = true
+    ∧ args "FDD" "mpe_from_plot" "fdd.FDD_mpe"
+      [("Sval", "self.result.S_val"), ("Svec", "self.result.S_vec"), ("freq", "self.result.freq")] = true
+    ∧ onlyParams "FDD" "mpe_from_plot" "fdd.FDD_mpe" ["Sval", "Svec", "freq", "sel_freq", "DF"] = true
+    ∧ args "pLSCF" "mpe_from_plot" "plscf.pLSCF_mpe"
+      [("Fn_pol", "self.result.Fn_poles"), ("Xi_pol", "self.result.Xi_poles"), ("Phi_pol", "self.result.Phi_poles")] = true
+    ∧ onlyParams "pLSCF" "mpe_from_plot" "plscf.pLSCF_mpe" ["sel_freq", "Fn_pol", "Xi_pol", "Phi_pol", "order", "Lab", "rtol"] = true
+    ∧ onlyParams "SSIdat" "mpe_from_plot" "ssi.SSI_mpe"
+      ["freq_ref", "Fn_pol", "Xi_pol", "Phi_pol", "order", "Lab", "rtol", "Fn_cov", "Xi_cov", "Phi_cov"] = true := by
+  decide
+
+/-- **C16 stores.** every `mpe_from_plot` stores each output of the extraction routine in the result field of the
+    same name (positions follow the routine's return statement) and the tolerances of the call in `run_params`;
+    these are ALL its stores (each field once, no later overwrite). -/
+theorem C16_from_plot_stores :
+    storedExactly "SSIdat" "mpe_from_plot"
+      [("self.run_params.rtol", "rtol"),
+       ("self.result.Fn", "ssi.SSI_mpe[0]#0"), ("self.result.Xi", "ssi.SSI_mpe[0]#1"), ("self.result.Phi", "ssi.SSI_mpe[0]#2"),
+       ("self.result.order_out", "ssi.SSI_mpe[0]#3"), ("self.result.Fn_cov", "ssi.SSI_mpe[0]#4"),
+       ("self.result.Xi_cov", "ssi.SSI_mpe[0]#5"), ("self.result.Phi_cov", "ssi.SSI_mpe[0]#6")] = true
+    ∧ storedExactly "pLSCF" "mpe_from_plot"
+      [("self.run_params.rtol", "rtol"),
+       ("self.result.Fn", "plscf.pLSCF_mpe[0]#0"), ("self.result.Xi", "plscf.pLSCF_mpe[0]#1"),
+       ("self.result.Phi", "plscf.pLSCF_mpe[0]#2"), ("self.result.order_out", "plscf.pLSCF_mpe[0]#3")] = true
+    ∧ storedExactly "FDD" "mpe_from_plot"
+      [("self.run_params.DF", "DF"), ("self.result.Fn", "fdd.FDD_mpe[0]#0"), ("self.result.Phi", "fdd.FDD_mpe[0]#1")] = true
+    ∧ storedExactly "EFDD" "mpe_from_plot"
+      [("self.run_params.DF1", "DF1"), ("self.run_params.DF2", "DF2"), ("self.run_params.cm", "cm"),
+       ("self.run_params.MAClim", "MAClim"), ("self.run_params.sppk", "sppk"), ("self.run_params.npmax", "npmax"),
+       ("self.result.Fn", "fdd.EFDD_mpe[0]#0.reshape(-1)"), ("self.result.Xi", "fdd.EFDD_mpe[0]#1.reshape(-1)"),
+       ("self.result.Phi", "fdd.EFDD_mpe[0]#2"), ("self.result.forPlot", "fdd.EFDD_mpe[0]#3")] = true := by
+  decide
+
+/-- **C11 / C06 (C07).** the `mpe` bodies store exactly these (target, value) pairs — the request in `run_params`, every
+    output of the extraction routine in the result field of the same name — each once, nothing else, no later
+    overwrite (strengthens `C11_*_stores`, `C06_fdd_mpe_wiring`, `C07_efdd_mpe_wiring`, which look a field up). -/
+theorem C11_mpe_stores_exact :
+    storedExactly "SSIdat" "mpe"
+      [("self.run_params.sel_freq", "sel_freq"), ("self.run_params.order_in", "order"), ("self.run_params.rtol", "rtol"),
+       ("self.result.Fn", "ssi.SSI_mpe[0]#0"), ("self.result.Xi", "ssi.SSI_mpe[0]#1"), ("self.result.Phi", "ssi.SSI_mpe[0]#2"),
+       ("self.result.order_out", "ssi.SSI_mpe[0]#3"), ("self.result.Fn_cov", "ssi.SSI_mpe[0]#4"),
+       ("self.result.Xi_cov", "ssi.SSI_mpe[0]#5"), ("self.result.Phi_cov", "ssi.SSI_mpe[0]#6")] = true
+    ∧ storedExactly "pLSCF" "mpe"
+      [("self.run_params.sel_freq", "sel_freq"), ("self.run_params.order_in", "order"), ("self.run_params.rtol", "rtol"),
+       ("self.result.Fn", "plscf.pLSCF_mpe[0]#0"), ("self.result.Xi", "plscf.pLSCF_mpe[0]#1"),
+       ("self.result.Phi", "plscf.pLSCF_mpe[0]#2"), ("self.result.order_out", "plscf.pLSCF_mpe[0]#3")] = true := by
+  decide
+
+theorem C06_mpe_stores_exact :
+    storedExactly "FDD" "mpe"
+      [("self.run_params.sel_freq", "sel_freq"), ("self.run_params.DF", "DF"),
+       ("self.result.Fn", "fdd.FDD_mpe[0]#0"), ("self.result.Phi", "fdd.FDD_mpe[0]#1")] = true
+    ∧ storedExactly "EFDD" "mpe"
+      [("self.run_params.sel_freq", "sel_freq"), ("self.run_params.DF1", "DF1"), ("self.run_params.DF2", "DF2"),
+       ("self.run_params.cm", "cm"), ("self.run_params.MAClim", "MAClim"), ("self.run_params.sppk", "sppk"),
+       ("self.run_params.npmax", "npmax"),
+       ("self.result.Fn", "fdd.EFDD_mpe[0]#0.reshape(-1)"), ("self.result.Xi", "fdd.EFDD_mpe[0]#1.reshape(-1)"),
+       ("self.result.Phi", "fdd.EFDD_mpe[0]#2"), ("self.result.forPlot", "fdd.EFDD_mpe[0]#3")] = true := by
+  decide
+
 end PV.WiringMpe
